@@ -610,6 +610,16 @@ def _feature_protos():
                                                        [N("Add", ["acc", "x"], ["acc2"])] + cond_nodes(src="acc2", out="c_raw", thr=50.0) + [N("Not", ["c_raw"], ["c_out"])], "body",
                                                        [_vi("it", TP.INT64, []), _vi("c_in", TP.BOOL, []), _vi("acc")], [_vi("c_out", TP.BOOL, []), _vi("acc2")])),
                                                    N("Identity", ["accf"], ["y"])], ins=("x", "n"))
+    # trip count AND a run-time condition operand, the body only passes the condition through: the loop must not run at
+    # all when the condition is false at entry (feeds: the condition is false with a positive trip count)
+    for kind in (function, model):
+        yield kind("forpass:trip-and-runtime-condition" + (":in-model-graph" if kind is model else ""),
+                   cond_nodes(src="x", out="c0", thr=2.5) + [
+                       N("Identity", ["x"], ["x0"]),
+                       N("Loop", ["n", "c0", "x0"], ["accf"], body=h.make_graph(
+                           [N("Add", ["acc", "x"], ["acc2"]), N("Identity", ["c_in"], ["c_out"])], "body",
+                           [_vi("it", TP.INT64, []), _vi("c_in", TP.BOOL, []), _vi("acc")], [_vi("c_out", TP.BOOL, []), _vi("acc2")])),
+                       N("Identity", ["accf"], ["y"])], **({"ins": ("x", "n")} if kind is function else {"in_extra": nin}))
     # trip count, no condition input, the condition computed in the body (cond_out mentioned, cond_in not)
     for kind in (function, model):
         yield kind("forbreak:no-condition-input" + (":in-model-graph" if kind is model else ""),
